@@ -1702,6 +1702,83 @@ theorem C13_attempt_mismatch_refused_even_if_pkix (EN : EnvN) (host : Name) (bas
   obtain ⟨_, _, _, _, s5⟩ := verifyDANE_spec (EN.forName (some host)) recs true leaf rest
   simp [attemptMX, h, policyStep, checkConn, s5 rfl hu hm]
 
+/-! ## One AD bit per RRset: which address RRset decides whether the host is "secure"
+
+RFC 7672 §2.2: the TLSA RRset of an MX host is used iff it is itself authenticated and the host's
+address records are. `CheckCNAMEAD` consults the A RRset when the host has A records and the AAAA
+RRset only when it has none; the AD bit of the answer that is NOT consulted (a DNS64-synthesised
+AAAA RRset next to a signed A RRset) does not enter the decision. -/
+
+/-- `checkAddr` is `CheckCNAMEAD` (the resolver-level model) on the two exchanges -/
+theorem checkCNAMEAD_toX (a aaaa : AddrAns) :
+    checkCNAMEAD a.toX aaaa.toX = some (checkAddr a aaaa) := by
+  rcases a with e | ⟨adA, rnA⟩
+  · rfl
+  · rcases aaaa with e6 | ⟨ad6, rn6⟩
+    · cases rnA <;> rfl
+    · cases rnA <;> cases rn6 <;> rfl
+
+/-- the per-RRset discovery is the discovery through the resolver model on the same answers -/
+theorem discoverRR_eq (D : DnsRR) :
+    (checkCNAMEAD D.a.toX D.aaaa.toX).map
+      (fun ck => discoverTLSA ⟨ck, D.lookupCNAME, D.tlsaRname, D.tlsaMX⟩) = some (discoverRR D) := by
+  rw [checkCNAMEAD_toX]; rfl
+
+/-- the host has an A record: the A answer — its AD bit, its owner name — is the result, whatever the
+AAAA lookup yields -/
+theorem C13_checkAddr_a_present (adA : Bool) (rn : RName) (hrn : rn ≠ .empty) (aaaa : AddrAns) :
+    checkAddr (.ok (adA, rn)) aaaa = .ok (adA, rn) := by
+  cases rn
+  · exact absurd rfl hrn
+  · rfl
+  · rfl
+
+/-- no A record: the AAAA answer is the result (the AD bit of the empty A answer is not read) -/
+theorem C13_checkAddr_aaaa_only (adA ad6 : Bool) (rn : RName) (hrn : rn ≠ .empty) :
+    checkAddr (.ok (adA, .empty)) (.ok (ad6, rn)) = .ok (ad6, rn) := by
+  cases rn
+  · exact absurd rfl hrn
+  · rfl
+  · rfl
+
+/-- **C13, the AAAA answer is irrelevant when an A RRset exists.** For a host with an A record,
+discovery — and with it the connection decision — is the same for EVERY outcome of the AAAA lookup:
+authenticated, not authenticated (DNS64), empty, failing. In particular an authenticated TLSA RRset of
+a host whose A RRset is authenticated is used although the AAAA answer comes without AD. -/
+theorem C13_aaaa_ad_irrelevant_when_a_present (D : DnsRR) (adA : Bool) (rn : RName)
+    (ha : D.a = .ok (adA, rn)) (hrn : rn ≠ .empty) (x : AddrAns) :
+    discoverRR { D with aaaa := x } = discoverRR D ∧
+    ∀ E hr hs chain, connDecisionRR E hr { D with aaaa := x } hs chain = connDecisionRR E hr D hs chain := by
+  have h : discoverRR { D with aaaa := x } = discoverRR D := by
+    simp only [discoverRR, DnsRR.toDns, ha, C13_checkAddr_a_present adA rn hrn]
+  exact ⟨h, fun E hr hs chain => by simp only [connDecisionRR, h]⟩
+
+/-- the same one level down, for the exchanges of the resolver model: an A answer that holds an A
+record makes `CheckCNAMEAD` independent of the AAAA exchange -/
+theorem C13_resolver_aaaa_irrelevant_when_a_present (m : Msg) (hrn : m.rname ≠ .empty) (x y : XRes) :
+    checkCNAMEAD (.ok m) x = checkCNAMEAD (.ok m) y := by
+  simp [checkCNAMEAD, hrn]
+
+/-- **C13, the authenticated RRset of a dual-stack host is enforced.** A record with AD for the name
+asked, an authenticated TLSA answer under that name: its records are what discovery returns — for every
+AAAA answer — and a plaintext connection is refused when the RRset is not empty. -/
+theorem C13_dualstack_authenticated_rrset_used (D : DnsRR) (recs : List Rec)
+    (ha : D.a = .ok (true, .same)) (hm : D.tlsaMX = ⟨none, true, recs⟩) :
+    discoverRR D = .ok recs ∧
+    (recs ≠ [] → ∀ E chain, connDecisionRR E true D false chain = .ret .none (some (.dane .tlsRequired))) := by
+  have h : discoverRR D = .ok recs := by
+    simp [discoverRR, DnsRR.toDns, ha, checkAddr, discoverTLSA, discoverSecure, discoverAtMX, hm]
+  refine ⟨h, fun hne E chain => ?_⟩
+  cases recs with
+  | nil => exact absurd rfl hne
+  | cons r rs => simp [connDecisionRR, h, checkConn, verifyDANE]
+
+/-- the converse direction of the rule: the A RRset without AD (and no authenticated alias) — no
+record is used, whatever the AAAA and TLSA answers carry -/
+theorem C13_insecure_a_rrset_no_records (D : DnsRR) (ha : D.a = .ok (false, .same)) :
+    discoverRR D = .ok [] := by
+  simp [discoverRR, DnsRR.toDns, ha, checkAddr, discoverTLSA]
+
 /-! ## T1: facts regenerated from the current `dane.go` / `security.go` -/
 
 section T1
@@ -2032,6 +2109,42 @@ example : attemptMX exEnvS 0 (some ⟨none, false⟩) (pkixPeer [0, 1, 7]) true 
 /-- a crashed discovery: refused temporarily even on the X.509-authenticated connection -/
 example : attemptMX exEnvS 0 (some ⟨none, false⟩) (pkixPeer [0, 1]) true (prepareConn none) =
     .refused .tempLookup := by decide
+
+/-! ### one AD bit per RRset -/
+
+/-- a dual-stack MX behind a DNS64 resolver: signed A RRset, AAAA answer without AD, signed TLSA RRset
+`3 1 1` for the leaf -/
+def exDns64 : DnsRR where
+  a := .ok (true, .same)
+  aaaa := .ok (false, .same)
+  lookupCNAME := .ok true
+  tlsaRname := ⟨some .notFound, false, []⟩
+  tlsaMX := ⟨none, true, [⟨3, 1, 1, 0, 0, 32⟩]⟩
+
+example : discoverRR exDns64 = .ok [⟨3, 1, 1, 0, 0, 32⟩] := by rfl
+example : connDecisionRR exEnv true exDns64 true [0, 1, 2] = .ret .authenticated none := by decide
+example : connDecisionRR exEnv true exDns64 false [] = .ret .none (some (.dane .tlsRequired)) := by decide
+/-- a server that matches nothing is refused -/
+example : connDecisionRR exEnv true { exDns64 with tlsaMX := ⟨none, true, [⟨3, 1, 1, 9, 0, 32⟩]⟩ } true [0, 1, 2] =
+    .ret .none (some (.dane .noMatch)) := by decide
+/-- what "secure only if all address RRsets are" would do to this world: no record, plaintext accepted -/
+example : connDecision exEnv true ⟨.ok (false, .same), .ok true, exDns64.tlsaRname, exDns64.tlsaMX⟩ false [] =
+    .ret .none none := by decide
+/-- the mirrored worlds: insecure A RRset next to a signed AAAA RRset — not secure; AAAA only — the AAAA
+bit decides; the AAAA lookup fails next to a signed A RRset — secure -/
+example : discoverRR { exDns64 with a := .ok (false, .same), aaaa := .ok (true, .same) } = .ok [] := by rfl
+example : discoverRR { exDns64 with a := .ok (true, .empty), aaaa := .ok (false, .same) } = .ok [] := by rfl
+example : discoverRR { exDns64 with a := .ok (false, .empty), aaaa := .ok (true, .same) } =
+    .ok [⟨3, 1, 1, 0, 0, 32⟩] := by rfl
+example : discoverRR { exDns64 with aaaa := .error .other } = .ok [⟨3, 1, 1, 0, 0, 32⟩] := by rfl
+example : discoverRR { exDns64 with a := .ok (true, .empty), aaaa := .error .other } = .error .noAddress := by rfl
+/-- hypotheses of `C13_aaaa_ad_irrelevant_when_a_present` / `C13_dualstack_authenticated_rrset_used` -/
+example : exDns64.a = .ok (true, .same) ∧ RName.same ≠ .empty ∧
+    exDns64.tlsaMX = ⟨none, true, [⟨3, 1, 1, 0, 0, 32⟩]⟩ := ⟨rfl, by decide, rfl⟩
+/-- through the resolver model: the same world served by a loopback resolver -/
+example : resolverConn exEnv udpOnly
+    [{ exSrv true with aaaa := ⟨some ⟨0, false, false, .same, []⟩, none⟩ }] false [] =
+    .ret .none (some (.dane .tlsRequired)) := by decide
 
 end Examples
 
